@@ -39,6 +39,10 @@ CHECKS = {
          "bounded-exhaustive enumeration of argument strings per helper against independent reference definitions (regexp, net/url, encoding/base64, mime, bytes, a plain map built from the hash constants in the current source)",
          "Every string up to the bound over an alphabet built around each helper's syntax boundaries (and all 256 byte values for the byte-indexed tables) is fed to Number, Dimension, EncodeURL (both tables, three capacities), DecodeURL, DataURI (generated URIs with exact expected payload/type, and arbitrary fragment soups), Mediatype (fragment soups and every spacing of up to 2-3 distinct parameters), EqualFold, ToLower, TrimWhitespace, IsAllWhitespace, IsWhitespace, IsNewline and css/html ToHash (every constant, case variants, all single-edit neighbours, all short strings over the tables' letters); results must equal the reference; arguments must not be modified; any panic is a violation.",
          "Bounds in the evidence rule (e.g. Number: all 10^8 strings of <=8 over 10 bytes). Mediatype is compared with mime.ParseMediaType only on inputs matching type/subtype(;key=value)* with optional blanks, because mime is more lenient than 'well-formed'."),
+ "C17": ("exploration",
+         "bounded-exhaustive enumeration of fragment sequences for the in-place rewriters and of attribute values x configurations for the escapers, with semantic oracles (regexp reference, html.UnescapeString, read-back through the real lexers)",
+         "ReplaceMultipleWhitespace equals a regexp reference on all strings <=8 over the five whitespace bytes and two letters; ReplaceEntities on all sequences <=5 over 25 entity fragments x 3 reverse maps never lengthens, is idempotent, returns a prefix of its argument and leaves html.UnescapeString unchanged; the combined function equals the sequence of the two; html/xml EscapeAttrVal on all values up to 4/5 atoms x original quote x mustQuote x 3 buffer sizes are read back by the corresponding lexer as one attribute whose unquoted value decodes to the same text, with the documented quoting policy and the cheaper quote; EscapeCDATAVal declines or round-trips.",
+         "Entity maps are HTML-consistent by construction; NUL references are excepted as the property says; values containing NUL are not passed to the escapers."),
  "C19": ("model_checking",
          "exhaustive enumeration of write histories x byte order x backend/environment behaviour x truncation, and of all (position, offset, whence) / (position, length) pairs, against encoding/binary, bytes.Reader and the io contracts",
          "Every history of <=3 typed writes over 27 op/value pairs (both byte orders) is compared with encoding/binary and read back on 15 backends or environment behaviours (memory, Bytes() reader, ReadSeeker incl. 1-byte chunks and EOF-with-data, ReaderAt with nil/EOF on exact fit, plain readers, *os.File, mmap) with the data truncated at every byte: values, Pos, Len, Err before/after the first over-run, stability of returned byte strings. Seek from every position x every offset x whence 0..3 and Read/ReadAt for every (pos,len) on L<=6 bytes are compared with bytes.Reader and the io.Reader/io.ReaderAt clauses; all bit strings <=17 bits and all buffers <=2 bytes go through the bitmap types.",
